@@ -43,7 +43,9 @@ def known_devs(pid):
     p = os.path.join(vlib.VERIF, "known_findings.d", pid + ".json")
     if not os.path.exists(p):
         return set()
-    return {f["dev"] for f in json.load(open(p))["findings"] if f.get("status") == "known" and f.get("dev")}
+    devs = {f["dev"] for f in json.load(open(p))["findings"] if f.get("status") == "known" and f.get("dev")}
+    # trying out a proposed fix on a scratch copy: VERIF_DEVS_OFF=Name1,Name2 models the code without those deviations
+    return devs - set(filter(None, os.environ.get("VERIF_DEVS_OFF", "").split(",")))
 
 
 def tla_set(names):
